@@ -1,64 +1,1415 @@
-(* PathLaws.v — lemmas about PathModel. *)
-From Coq Require Import NArith List Bool Lia.
-From CS Require Import Sx Str PathModel.
+(* PathLaws.v — lemmas about PathModel: the helpers read through "components of a path".
+     pc cv p       the components of p (alt separators replaced, blanks dropped)
+     render cv l   the canonical string of a component list
+   normalize_path is [render (pc p)] (case-folded as the convention asks); everything else follows. *)
+From Coq Require Import NArith List Bool Lia Arith.
+From CS Require Import Sx Str StrLemmas PathModel.
 Import ListNotations.
 
-Lemma str_eqb_eq a b : str_eqb a b = true <-> a = b.
+(* ------------------------------------------------------------------ hypotheses on the case fold *)
+Record fold_ok (cv : conv) : Prop := {
+  fo_idem : forall c, cv_fold cv (cv_fold cv c) = cv_fold cv c;
+  fo_sep : forall c, cv_fold cv c = cv_sep cv <-> c = cv_sep cv;
+  fo_alt : forall a, cv_alt cv = Some a -> forall c, cv_fold cv c = a <-> c = a;
+  fo_colon : cv_win cv = true -> forall c, cv_fold cv c = 58%N <-> c = 58%N
+}.
+
+(* the fold only matters for case-insensitive conventions *)
+Definition conv_ok (cv : conv) : Prop := cv_cs cv = false -> fold_ok cv.
+
+(* ------------------------------------------------------------------ alt separators *)
+Definition rp (cv : conv) (p : str) : str :=
+  match cv_alt cv with Some a => replace_char a (cv_sep cv) p | None => p end.
+
+Definition noalt (cv : conv) (s : str) : Prop :=
+  forall a, cv_alt cv = Some a -> a <> cv_sep cv -> ~ In a s.
+
+Lemma rp_noalt cv s : noalt cv s -> rp cv s = s.
 Proof.
-  revert b; induction a as [|x a IH]; intros [|y b]; simpl; split; intros H; try congruence; try reflexivity.
-  - apply andb_true_iff in H as [H1 H2]. apply N.eqb_eq in H1. apply IH in H2. congruence.
-  - inversion H; subst. rewrite N.eqb_refl. simpl. apply IH. reflexivity.
+  unfold rp, noalt. intros H. destruct (cv_alt cv) as [a|]; [|reflexivity].
+  destruct (N.eq_dec a (cv_sep cv)) as [->|Hne]; [apply replace_char_same|].
+  apply replace_char_no. apply (H a eq_refl Hne).
 Qed.
 
-Lemma lstrip_idem c s : lstrip c (lstrip c s) = lstrip c s.
+Lemma noalt_rp cv s : noalt cv (rp cv s).
 Proof.
-  induction s as [|x s IH]; simpl; [reflexivity|].
-  destruct (N.eqb x c) eqn:E; [exact IH|]. simpl. rewrite E. reflexivity.
+  unfold rp, noalt. intros a Ha Hne. rewrite Ha. apply replace_char_out. exact Hne.
 Qed.
 
-Lemma rstrip_idem c s : rstrip c (rstrip c s) = rstrip c s.
-Proof. unfold rstrip. rewrite rev_involutive, lstrip_idem. reflexivity. Qed.
+Lemma noalt_incl cv s t : incl t s -> noalt cv s -> noalt cv t.
+Proof. intros Hi Hs a Ha Hne Hin. apply (Hs a Ha Hne). apply Hi. exact Hin. Qed.
 
-Lemma replace_char_idem a b s : replace_char a b (replace_char a b s) = replace_char a b s.
+Lemma noalt_app cv a b : noalt cv (a ++ b) <-> noalt cv a /\ noalt cv b.
 Proof.
-  unfold replace_char. rewrite map_map. apply map_ext. intros x.
-  destruct (N.eqb x a) eqn:E; [|rewrite E; reflexivity].
-  destruct (N.eqb b a) eqn:E2; [|reflexivity]. reflexivity.
+  split.
+  - intros H. split; eapply noalt_incl; try exact H; [apply incl_appl|apply incl_appr]; apply incl_refl.
+  - intros [Ha Hb] x Hx Hne Hin. apply in_app_or in Hin as [Hin|Hin]; [apply (Ha x Hx Hne Hin)|apply (Hb x Hx Hne Hin)].
 Qed.
 
-Lemma lstrip_no c s : (forall x, In x s -> x <> c) -> lstrip c s = s.
-Proof. destruct s as [|x s]; simpl; intros H; [reflexivity|]. destruct (N.eqb_spec x c); [exfalso; apply (H x); auto|reflexivity]. Qed.
+Lemma noalt_sep cv : noalt cv [cv_sep cv].
+Proof. intros a Ha Hne [H|[]]. congruence. Qed.
 
-Lemma replace_char_rstrip_comm a b s : a <> b ->
-  replace_char a b (rstrip b (replace_char a b s)) = rstrip b (replace_char a b s).
+Lemma noalt_nil cv : noalt cv [].
+Proof. intros a Ha Hne []. Qed.
+
+Lemma noalt_cons cv x s : noalt cv [x] -> noalt cv s -> noalt cv (x :: s).
+Proof. intros Hx Hs. apply (proj2 (noalt_app cv [x] s)). split; assumption. Qed.
+
+Lemma rp_app cv a b : rp cv (a ++ b) = rp cv a ++ rp cv b.
+Proof. unfold rp. destruct (cv_alt cv); [apply replace_char_app|reflexivity]. Qed.
+
+Lemma rp_idem cv s : rp cv (rp cv s) = rp cv s.
+Proof. apply rp_noalt. apply noalt_rp. Qed.
+
+Lemma rp_nil cv : rp cv [] = [].
+Proof. unfold rp. destruct (cv_alt cv); reflexivity. Qed.
+
+Lemma rp_length cv s : length (rp cv s) = length s.
+Proof. unfold rp. destruct (cv_alt cv); [apply map_length|reflexivity]. Qed.
+
+(* ------------------------------------------------------------------ nps *)
+Lemma nps_eq cv p :
+  nps cv p = if str_eqb (rp cv p) [cv_sep cv] then [cv_sep cv] else rstrip (cv_sep cv) (rp cv p).
 Proof.
-  intros Hab. unfold rstrip.
-  assert (H: forall l, (forall x, In x l -> x <> a) -> replace_char a b l = l).
-  { induction l as [|x l IH]; simpl; intros Hl; [reflexivity|].
-    destruct (N.eqb_spec x a); [exfalso; apply (Hl x); auto|]. f_equal. apply IH. intros y Hy. apply Hl. auto. }
-  apply H. intros x Hx. apply in_rev in Hx.
-  assert (Hin: forall l y, In y (lstrip b l) -> In y l).
-  { induction l as [|z l IH]; simpl; intros y Hy; [exact Hy|]. destruct (N.eqb z b); auto. }
-  apply Hin in Hx. apply in_rev in Hx. unfold replace_char in Hx. apply in_map_iff in Hx as [z [Hz _]].
-  destruct (N.eqb_spec z a); subst; auto.
+  destruct p as [|x p].
+  - rewrite rp_nil. reflexivity.
+  - unfold nps. fold (rp cv (x :: p)).
+    destruct (str_eqb_spec (rp cv (x :: p)) [cv_sep cv]) as [E|E]; [exact E|reflexivity].
+Qed.
+
+Lemma nps_noalt cv p : noalt cv (nps cv p).
+Proof.
+  rewrite nps_eq. destruct (str_eqb (rp cv p) [cv_sep cv]); [apply noalt_sep|].
+  eapply noalt_incl; [apply rstrip_incl|apply noalt_rp].
+Qed.
+
+Lemma nps_shape cv p : nps cv p = [cv_sep cv] \/ rstrip (cv_sep cv) (nps cv p) = nps cv p.
+Proof.
+  rewrite nps_eq. destruct (str_eqb (rp cv p) [cv_sep cv]); [left; reflexivity|right; apply rstrip_idem].
+Qed.
+
+Lemma nps_fix cv x : noalt cv x -> (x = [cv_sep cv] \/ rstrip (cv_sep cv) x = x) -> nps cv x = x.
+Proof.
+  intros Hn Hs. rewrite nps_eq, (rp_noalt cv x Hn).
+  destruct (str_eqb_spec x [cv_sep cv]) as [E|E]; [symmetry; exact E|].
+  destruct Hs as [Hs|Hs]; [contradiction|exact Hs].
 Qed.
 
 Lemma nps_idem cv p : nps cv (nps cv p) = nps cv p.
+Proof. apply nps_fix; [apply nps_noalt|apply nps_shape]. Qed.
+
+Lemma nps_nil cv : nps cv [] = [].
+Proof. reflexivity. Qed.
+
+Lemma nps_sep cv : nps cv [cv_sep cv] = [cv_sep cv].
+Proof. apply nps_fix; [apply noalt_sep|left; reflexivity]. Qed.
+
+(* components of a path *)
+Definition pc (cv : conv) (p : str) : list str := comps (cv_sep cv) (rp cv p).
+
+Lemma comps_nps cv p : comps (cv_sep cv) (nps cv p) = pc cv p.
 Proof.
-  unfold nps. destruct p as [|x p]; [reflexivity|].
-  set (p1 := match cv_alt cv with Some a => replace_char a (cv_sep cv) (x :: p) | None => x :: p end).
-  destruct (str_eqb p1 [cv_sep cv]) eqn:E1.
-  - apply str_eqb_eq in E1. rewrite E1.
-    destruct (cv_alt cv) as [a|]; simpl.
-    + destruct (N.eqb (cv_sep cv) a); simpl; rewrite N.eqb_refl; reflexivity.
-    + rewrite N.eqb_refl. reflexivity.
-  - destruct (rstrip (cv_sep cv) p1) as [|y q] eqn:E2; [reflexivity|].
-    rewrite <- E2.
-    assert (Hrep: match cv_alt cv with Some a => replace_char a (cv_sep cv) (rstrip (cv_sep cv) p1) | None => rstrip (cv_sep cv) p1 end = rstrip (cv_sep cv) p1).
-    { unfold p1. destruct (cv_alt cv) as [a|]; [|reflexivity].
-      destruct (N.eqb_spec a (cv_sep cv)) as [->|Hne].
-      - unfold replace_char. rewrite map_ext with (g := fun x => x); [apply map_id|]. intros z. destruct (N.eqb z (cv_sep cv)) eqn:Ez; [apply N.eqb_eq in Ez; auto|reflexivity].
-      - apply replace_char_rstrip_comm. exact Hne. }
-    rewrite Hrep. rewrite rstrip_idem.
-    destruct (str_eqb (rstrip (cv_sep cv) p1) [cv_sep cv]); reflexivity.
+  unfold pc. rewrite nps_eq. destruct (str_eqb_spec (rp cv p) [cv_sep cv]) as [E|E].
+  - rewrite E. reflexivity.
+  - apply comps_rstrip.
+Qed.
+
+Lemma pc_nps cv p : pc cv (nps cv p) = pc cv p.
+Proof. unfold pc at 1. rewrite (rp_noalt cv _ (nps_noalt cv p)). apply comps_nps. Qed.
+
+Lemma pc_noalt cv s : noalt cv s -> pc cv s = comps (cv_sep cv) s.
+Proof. intros H. unfold pc. rewrite (rp_noalt cv s H). reflexivity. Qed.
+
+Lemma comps_incl c s q : In q (comps c s) -> incl q s.
+Proof.
+  revert q. induction s as [|x s IH]; intros q Hq; simpl in Hq; [destruct Hq|].
+  destruct (N.eqb x c).
+  - apply incl_tl. apply IH. exact Hq.
+  - destruct (starts_comp c s).
+    + destruct (comps c s) as [|h t].
+      * destruct Hq as [<-|[]]. intros y [Hy|[]]. left. exact Hy.
+      * destruct Hq as [<-|Hq].
+        -- intros y [Hy|Hy]; [left; exact Hy|right; apply (IH h); [left; reflexivity|exact Hy]].
+        -- apply incl_tl. apply IH. right. exact Hq.
+    + destruct Hq as [<-|Hq].
+      * intros y [Hy|[]]. left. exact Hy.
+      * apply incl_tl. apply IH. exact Hq.
+Qed.
+
+(* a component: non-empty, no separator, no alt separator *)
+Definition gcomp (cv : conv) (q : str) : Prop := good (cv_sep cv) q /\ noalt cv q.
+
+Lemma pc_gcomp cv p : Forall (gcomp cv) (pc cv p).
+Proof.
+  unfold pc. apply Forall_forall. intros q Hq. split.
+  - pose proof (comps_good (cv_sep cv) (rp cv p)) as H. rewrite Forall_forall in H. apply H. exact Hq.
+  - eapply noalt_incl; [apply (comps_incl _ _ _ Hq)|apply noalt_rp].
+Qed.
+
+Lemma gcomp_good cv l : Forall (gcomp cv) l -> Forall (good (cv_sep cv)) l.
+Proof. apply Forall_impl. intros q [H _]. exact H. Qed.
+
+Lemma nps_gcomp cv q : gcomp cv q -> nps cv q = q.
+Proof. intros [[_ Hs] Hn]. apply nps_fix; [exact Hn|right; apply rstrip_no; exact Hs]. Qed.
+
+Lemma noalt_intercalate cv l : Forall (gcomp cv) l -> noalt cv (intercalate (cv_sep cv) l).
+Proof.
+  induction 1 as [|p l [_ Hp] Hl IH]; [apply noalt_nil|].
+  rewrite intercalate_cons. destruct l as [|q l]; [exact Hp|].
+  apply noalt_app. split; [exact Hp|]. apply noalt_cons; [apply noalt_sep|exact IH].
+Qed.
+
+(* ------------------------------------------------------------------ join *)
+(* the drive-letter test of Provider.join: win_paths and joined_path[1:2] == ':' *)
+Definition dl (cv : conv) (j : str) : bool :=
+  cv_win cv && match j with _ :: y :: _ => N.eqb y 58 | _ => false end.
+
+Definition fin (cv : conv) (j : str) : str := if dl cv j then j else add_sep cv j.
+
+Lemma join_eq cv paths :
+  join cv paths =
+  match strip_list cv (norm_list cv paths) with
+  | [] => [cv_sep cv]
+  | l => fin cv (intercalate (cv_sep cv) l)
+  end.
+Proof.
+  unfold join, fin, dl. destruct (strip_list cv (norm_list cv paths)) as [|p l]; [reflexivity|].
+  generalize (intercalate (cv_sep cv) (p :: l)). intros j.
+  destruct (cv_win cv); [|reflexivity]. cbn [andb].
+  destruct j as [|x [|y j]]; reflexivity.
+Qed.
+
+Lemma comps_add_sep cv j : comps (cv_sep cv) (add_sep cv j) = comps (cv_sep cv) j.
+Proof.
+  unfold add_sep. destruct j as [|x j]; [reflexivity|].
+  destruct (N.eqb x (cv_sep cv)); [reflexivity|apply comps_cons_sep].
+Qed.
+
+Lemma comps_fin cv j : comps (cv_sep cv) (fin cv j) = comps (cv_sep cv) j.
+Proof. unfold fin. destruct (dl cv j); [reflexivity|apply comps_add_sep]. Qed.
+
+Lemma noalt_add_sep cv j : noalt cv j -> noalt cv (add_sep cv j).
+Proof.
+  intros H. unfold add_sep. destruct j as [|x j]; [exact H|].
+  destruct (N.eqb x (cv_sep cv)); [exact H|]. apply noalt_cons; [apply noalt_sep|exact H].
+Qed.
+
+Lemma noalt_fin cv j : noalt cv j -> noalt cv (fin cv j).
+Proof. intros H. unfold fin. destruct (dl cv j); [exact H|apply noalt_add_sep; exact H]. Qed.
+
+Lemma filter_nonempty_comps c (L : list str) :
+  concat (map (comps c) (filter nonempty L)) = concat (map (comps c) L).
+Proof.
+  induction L as [|p L IH]; [reflexivity|]. simpl.
+  destruct p as [|x p]; simpl; [exact IH|]. rewrite IH. reflexivity.
+Qed.
+
+Lemma strip_list_comps cv L :
+  concat (map (comps (cv_sep cv)) (strip_list cv L)) = concat (map (comps (cv_sep cv)) L).
+Proof.
+  destruct L as [|p r]; [reflexivity|]. unfold strip_list.
+  rewrite map_app, concat_app, !filter_nonempty_comps. simpl. rewrite app_nil_r, comps_rstrip. f_equal.
+  induction r as [|q r IH]; [reflexivity|]. simpl. rewrite comps_strip, IH. reflexivity.
+Qed.
+
+Lemma norm_list_comps cv l :
+  concat (map (comps (cv_sep cv)) (norm_list cv l)) = concat (map (pc cv) l).
+Proof.
+  unfold norm_list. rewrite filter_nonempty_comps.
+  induction l as [|p l IH]; [reflexivity|]. simpl. rewrite comps_nps, IH. reflexivity.
+Qed.
+
+Lemma noalt_strip_list cv L : Forall (noalt cv) L -> Forall (noalt cv) (strip_list cv L).
+Proof.
+  intros H. destruct L as [|p r]; [constructor|]. unfold strip_list.
+  inversion H as [|p' r' Hp Hr]; subst. apply Forall_app. split.
+  - simpl. destruct (nonempty (rstrip (cv_sep cv) p)); [|constructor].
+    constructor; [|constructor]. eapply noalt_incl; [apply rstrip_incl|exact Hp].
+  - apply Forall_forall. intros q Hq. apply filter_In in Hq as [Hq _]. apply in_map_iff in Hq as [z [<- Hz]].
+    rewrite Forall_forall in Hr. eapply noalt_incl; [apply strip_incl|apply Hr; exact Hz].
+Qed.
+
+Lemma noalt_norm_list cv l : Forall (noalt cv) (norm_list cv l).
+Proof.
+  unfold norm_list. apply Forall_forall. intros q Hq. apply filter_In in Hq as [Hq _].
+  apply in_map_iff in Hq as [z [<- _]]. apply nps_noalt.
+Qed.
+
+Lemma noalt_intercalate_gen cv L : Forall (noalt cv) L -> noalt cv (intercalate (cv_sep cv) L).
+Proof.
+  induction 1 as [|p l Hp Hl IH]; [apply noalt_nil|].
+  rewrite intercalate_cons. destruct l as [|q l]; [exact Hp|].
+  apply noalt_app. split; [exact Hp|]. apply noalt_cons; [apply noalt_sep|exact IH].
+Qed.
+
+Lemma noalt_join cv l : noalt cv (join cv l).
+Proof.
+  rewrite join_eq. pose proof (noalt_strip_list cv _ (noalt_norm_list cv l)) as H.
+  destruct (strip_list cv (norm_list cv l)) as [|p r]; [apply noalt_sep|].
+  apply noalt_fin. apply noalt_intercalate_gen. exact H.
+Qed.
+
+(* the components of a join are the components of its arguments, in order *)
+Lemma pc_join cv l : pc cv (join cv l) = concat (map (pc cv) l).
+Proof.
+  rewrite (pc_noalt cv _ (noalt_join cv l)). rewrite join_eq.
+  rewrite <- norm_list_comps, <- strip_list_comps.
+  destruct (strip_list cv (norm_list cv l)) as [|p r] eqn:E.
+  - simpl. rewrite N.eqb_refl. reflexivity.
+  - rewrite comps_fin. apply comps_intercalate.
+Qed.
+
+(* ------------------------------------------------------------------ render *)
+Definition render (cv : conv) (l : list str) : str :=
+  match l with [] => [cv_sep cv] | _ => fin cv (intercalate (cv_sep cv) l) end.
+
+Lemma strip_list_good cv l : Forall (good (cv_sep cv)) l -> strip_list cv l = l.
+Proof.
+  intros H. destruct l as [|p r]; [reflexivity|]. unfold strip_list.
+  inversion H as [|p' r' [Hp1 Hp2] Hr]; subst.
+  rewrite rstrip_no by exact Hp2. simpl. destruct p as [|x p]; [contradiction|]. simpl. f_equal.
+  induction Hr as [|q r [Hq1 Hq2] Hr IH]; [reflexivity|]. simpl.
+  rewrite strip_no by exact Hq2. destruct q as [|y q]; [contradiction|]. simpl. f_equal. apply IH.
+  constructor; [split; assumption|exact Hr].
+Qed.
+
+Lemma norm_list_gcomp cv l : Forall (gcomp cv) l -> norm_list cv l = l.
+Proof.
+  unfold norm_list. induction 1 as [|p l Hp Hl IH]; [reflexivity|]. simpl.
+  rewrite (nps_gcomp cv p Hp). destruct Hp as [[Hp1 _] _]. destruct p; [contradiction|]. simpl. f_equal. exact IH.
+Qed.
+
+Lemma join_gcomp cv l : Forall (gcomp cv) l -> join cv l = render cv l.
+Proof.
+  intros H. rewrite join_eq, (norm_list_gcomp cv l H), (strip_list_good cv l (gcomp_good cv l H)).
+  destruct l; reflexivity.
+Qed.
+
+Lemma noalt_render cv l : Forall (gcomp cv) l -> noalt cv (render cv l).
+Proof. intros H. rewrite <- join_gcomp by exact H. apply noalt_join. Qed.
+
+Lemma pc_render cv l : Forall (gcomp cv) l -> pc cv (render cv l) = l.
+Proof.
+  intros H. rewrite (pc_noalt cv _ (noalt_render cv l H)). unfold render.
+  destruct l as [|p r]; [simpl; rewrite N.eqb_refl; reflexivity|].
+  rewrite comps_fin. apply comps_intercalate_good. apply gcomp_good. exact H.
+Qed.
+
+(* the pieces of re.split on the separator of an nps-normal string are already components *)
+Lemma split_runs_aux_all (P : N -> Prop) c s cur b :
+  (forall x, In x cur -> P x) -> (forall x, In x s -> x <> c -> P x) ->
+  Forall (fun q => forall x, In x q -> P x) (split_runs_aux c s cur b).
+Proof.
+  revert cur b. induction s as [|x s IH]; intros cur b Hc Hs; simpl.
+  - constructor; [|constructor]. intros y Hy. apply in_rev in Hy. apply Hc. exact Hy.
+  - assert (Hs' : forall y, In y s -> y <> c -> P y) by (intros y Hy; apply Hs; right; exact Hy).
+    destruct (N.eqb_spec x c) as [->|Hx].
+    + destruct b; [apply IH; assumption|]. constructor; [|apply IH; [intros y []|exact Hs']].
+      intros y Hy. apply in_rev in Hy. apply Hc. exact Hy.
+    + apply IH; [|exact Hs']. intros y [<-|Hy]; [apply Hs; [left; reflexivity|exact Hx]|apply Hc; exact Hy].
+Qed.
+
+Lemma norm_list_split_runs cv s : noalt cv s ->
+  norm_list cv (split_runs (cv_sep cv) s) = comps (cv_sep cv) s.
+Proof.
+  intros Hn. rewrite <- split_runs_comps. unfold norm_list. f_equal.
+  rewrite <- (map_id (split_runs (cv_sep cv) s)) at 2. apply map_ext_in. intros q Hq.
+  apply nps_fix.
+  - intros a Ha Hne Hin.
+    pose proof (split_runs_aux_all (fun x => x <> a) (cv_sep cv) s [] false) as H.
+    rewrite Forall_forall in H. refine (H _ _ q Hq a Hin eq_refl).
+    + intros x [].
+    + intros x Hx _ ->. apply (Hn a Ha Hne Hx).
+  - right. apply rstrip_no. pose proof (split_runs_nosep (cv_sep cv) s) as H.
+    rewrite Forall_forall in H. apply H. exact Hq.
+Qed.
+
+Lemma join_split_runs cv p : join cv (split_runs (cv_sep cv) (nps cv p)) = render cv (pc cv p).
+Proof.
+  rewrite join_eq, (norm_list_split_runs cv _ (nps_noalt cv p)), comps_nps.
+  rewrite (strip_list_good cv _ (gcomp_good cv _ (pc_gcomp cv p))). destruct (pc cv p); reflexivity.
+Qed.
+
+(* ------------------------------------------------------------------ case fold *)
+Lemma lower_length cv s : length (lower cv s) = length s.
+Proof. apply map_length. Qed.
+
+Lemma lower_app cv a b : lower cv (a ++ b) = lower cv a ++ lower cv b.
+Proof. apply map_app. Qed.
+
+Lemma lower_idem cv (Hf : fold_ok cv) s : lower cv (lower cv s) = lower cv s.
+Proof. unfold lower. rewrite map_map. apply map_ext. intros x. apply (fo_idem cv Hf). Qed.
+
+Lemma fold_sep cv (Hf : fold_ok cv) : cv_fold cv (cv_sep cv) = cv_sep cv.
+Proof. apply (proj2 (fo_sep cv Hf _)). reflexivity. Qed.
+
+Lemma fold_sep_inv cv (Hf : fold_ok cv) c : cv_fold cv c = cv_sep cv -> c = cv_sep cv.
+Proof. apply (proj1 (fo_sep cv Hf c)). Qed.
+
+Lemma fold_alt cv (Hf : fold_ok cv) a : cv_alt cv = Some a -> cv_fold cv a = a.
+Proof. intros Ha. apply (proj2 (fo_alt cv Hf a Ha a)). reflexivity. Qed.
+
+Lemma fold_alt_inv cv (Hf : fold_ok cv) a c : cv_alt cv = Some a -> cv_fold cv c = a -> c = a.
+Proof. intros Ha. apply (proj1 (fo_alt cv Hf a Ha c)). Qed.
+
+Lemma fold_colon cv (Hf : fold_ok cv) : cv_win cv = true -> cv_fold cv 58%N = 58%N.
+Proof. intros Hw. apply (proj2 (fo_colon cv Hf Hw _)). reflexivity. Qed.
+
+Lemma fold_colon_inv cv (Hf : fold_ok cv) c : cv_win cv = true -> cv_fold cv c = 58%N -> c = 58%N.
+Proof. intros Hw. apply (proj1 (fo_colon cv Hf Hw c)). Qed.
+
+Lemma lower_sep_iff cv (Hf : fold_ok cv) s : lower cv s = [cv_sep cv] <-> s = [cv_sep cv].
+Proof.
+  destruct s as [|x [|y s]]; simpl; split; intros H; try discriminate.
+  - injection H as H. apply (fold_sep_inv cv Hf) in H. subst. reflexivity.
+  - injection H as H. subst. rewrite (fold_sep cv Hf). reflexivity.
+Qed.
+
+Lemma lower_in cv s y : In y (lower cv s) -> exists x, In x s /\ cv_fold cv x = y.
+Proof. intros H. apply in_map_iff in H as [x [Hx Hi]]. exists x. split; assumption. Qed.
+
+Lemma lower_nosep cv (Hf : fold_ok cv) s : ~ In (cv_sep cv) s -> ~ In (cv_sep cv) (lower cv s).
+Proof.
+  intros H Hin. apply lower_in in Hin as [x [Hx Hfx]]. apply (fold_sep_inv cv Hf) in Hfx. subst. contradiction.
+Qed.
+
+Lemma lower_noalt cv (Hf : fold_ok cv) s : noalt cv s -> noalt cv (lower cv s).
+Proof.
+  intros H a Ha Hne Hin. apply lower_in in Hin as [x [Hx Hfx]].
+  apply (fold_alt_inv cv Hf a x Ha) in Hfx. subst. apply (H a Ha Hne Hx).
+Qed.
+
+Lemma gcomp_lower cv (Hf : fold_ok cv) q : gcomp cv q -> gcomp cv (lower cv q).
+Proof.
+  intros [[H1 H2] H3]. split; [split|].
+  - destruct q; [contradiction|discriminate].
+  - apply lower_nosep; assumption.
+  - apply lower_noalt; assumption.
+Qed.
+
+Lemma gcomp_map_lower cv (Hf : fold_ok cv) l : Forall (gcomp cv) l -> Forall (gcomp cv) (map (lower cv) l).
+Proof. induction 1; simpl; constructor; [apply gcomp_lower; assumption|assumption]. Qed.
+
+Lemma rp_lower cv (Hf : fold_ok cv) s : rp cv (lower cv s) = lower cv (rp cv s).
+Proof.
+  unfold rp. destruct (cv_alt cv) as [a|] eqn:Ea; [|reflexivity].
+  unfold replace_char, lower. rewrite !map_map. apply map_ext. intros x.
+  destruct (N.eqb_spec x a) as [->|Hx].
+  - replace (N.eqb (cv_fold cv a) a) with true; [symmetry; apply (fold_sep cv Hf)|].
+    symmetry. apply N.eqb_eq. apply (fold_alt cv Hf a Ea).
+  - replace (N.eqb (cv_fold cv x) a) with false; [reflexivity|].
+    symmetry. apply N.eqb_neq. intros H. apply (fold_alt_inv cv Hf a x Ea) in H. contradiction.
+Qed.
+
+Lemma pc_lower cv (Hf : fold_ok cv) s : pc cv (lower cv s) = map (lower cv) (pc cv s).
+Proof. unfold pc. rewrite rp_lower by exact Hf. apply comps_map. intros x. apply (fo_sep cv Hf). Qed.
+
+Lemma dl_lower cv (Hf : fold_ok cv) j : dl cv (lower cv j) = dl cv j.
+Proof.
+  unfold dl. destruct (cv_win cv) eqn:Ew; [|reflexivity]. simpl.
+  destruct j as [|x [|y j]]; try reflexivity. simpl.
+  destruct (N.eqb_spec y 58) as [->|Hy].
+  - apply N.eqb_eq. apply (fold_colon cv Hf Ew).
+  - apply N.eqb_neq. intros H. apply (fold_colon_inv cv Hf y Ew) in H. contradiction.
+Qed.
+
+Lemma add_sep_lower cv (Hf : fold_ok cv) j : lower cv (add_sep cv j) = add_sep cv (lower cv j).
+Proof.
+  destruct j as [|x j]; [reflexivity|]. simpl.
+  destruct (N.eqb_spec x (cv_sep cv)) as [->|Hx].
+  - rewrite (fold_sep cv Hf), N.eqb_refl. simpl. rewrite (fold_sep cv Hf). reflexivity.
+  - replace (N.eqb (cv_fold cv x) (cv_sep cv)) with false.
+    + simpl. rewrite (fold_sep cv Hf). reflexivity.
+    + symmetry. apply N.eqb_neq. intros H. apply (fold_sep_inv cv Hf) in H. contradiction.
+Qed.
+
+Lemma fin_lower cv (Hf : fold_ok cv) j : lower cv (fin cv j) = fin cv (lower cv j).
+Proof.
+  unfold fin. rewrite dl_lower by exact Hf. destruct (dl cv j); [reflexivity|apply add_sep_lower; exact Hf].
+Qed.
+
+Lemma lower_intercalate cv (Hf : fold_ok cv) l :
+  lower cv (intercalate (cv_sep cv) l) = intercalate (cv_sep cv) (map (lower cv) l).
+Proof. unfold lower. rewrite intercalate_map. rewrite (fold_sep cv Hf). reflexivity. Qed.
+
+Lemma lower_render cv (Hf : fold_ok cv) l : lower cv (render cv l) = render cv (map (lower cv) l).
+Proof.
+  destruct l as [|p l]; [simpl; rewrite (fold_sep cv Hf); reflexivity|].
+  unfold render. simpl map at 2. rewrite fin_lower, lower_intercalate by exact Hf. reflexivity.
+Qed.
+
+(* ------------------------------------------------------------------ split of a rendered path *)
+Lemma intercalate_good_fix c L : Forall (good c) L -> L <> [] ->
+  rstrip c (intercalate c L) = intercalate c L /\ intercalate c L <> [].
+Proof.
+  induction 1 as [|p l [Hp1 Hp2] Hl IH]; intros Hne; [contradiction|].
+  rewrite intercalate_cons. destruct l as [|q l].
+  - split; [apply rstrip_no; exact Hp2|exact Hp1].
+  - destruct IH as [IH1 IH2]; [discriminate|]. split.
+    + rewrite rstrip_app_keep.
+      * f_equal. rewrite rstrip_cons, IH1. destruct (intercalate c (q :: l)); [contradiction|reflexivity].
+      * rewrite rstrip_cons, IH1. destruct (intercalate c (q :: l)); [contradiction|discriminate].
+    + destruct p; discriminate.
+Qed.
+
+Lemma nps_intercalate cv L : Forall (gcomp cv) L -> L <> [] ->
+  nps cv (intercalate (cv_sep cv) L) = intercalate (cv_sep cv) L.
+Proof.
+  intros H Hne. apply nps_fix; [apply noalt_intercalate; exact H|].
+  right. apply intercalate_good_fix; [apply gcomp_good; exact H|exact Hne].
+Qed.
+
+Lemma nps_sep_intercalate cv L : Forall (gcomp cv) L -> L <> [] ->
+  nps cv (cv_sep cv :: intercalate (cv_sep cv) L) = cv_sep cv :: intercalate (cv_sep cv) L.
+Proof.
+  intros H Hne. destruct (intercalate_good_fix (cv_sep cv) L (gcomp_good cv L H) Hne) as [H1 H2].
+  apply nps_fix; [apply noalt_cons; [apply noalt_sep|apply noalt_intercalate; exact H]|].
+  right. rewrite rstrip_cons, H1. destruct (intercalate (cv_sep cv) L); [contradiction|reflexivity].
+Qed.
+
+Lemma split_nosep cv s : nps cv s = s -> ~ In (cv_sep cv) s -> split cv s = ([], s).
+Proof. intros Hn Hs. unfold split. rewrite Hn, (rfind_none _ _ Hs). reflexivity. Qed.
+
+Lemma split_at cv a b : nps cv (a ++ cv_sep cv :: b) = a ++ cv_sep cv :: b -> ~ In (cv_sep cv) b ->
+  split cv (a ++ cv_sep cv :: b) = (match a with [] => [cv_sep cv] | _ => a end, b).
+Proof.
+  intros Hn Hb. unfold split. rewrite Hn, (rfind_last _ a b Hb).
+  destruct a as [|x a]; [reflexivity|].
+  remember (x :: a) as a' eqn:Ea. destruct a' as [|x' a'']; [discriminate|].
+  rewrite Ea. rewrite firstn_len_app, skipn_S_len_app. reflexivity.
+Qed.
+
+Lemma join_pair cv d b : nps cv d = d -> gcomp cv b ->
+  join cv [d; b] =
+  fin cv (match rstrip (cv_sep cv) d with [] => b | d' => d' ++ cv_sep cv :: b end).
+Proof.
+  intros Hd Hb. rewrite join_eq. unfold norm_list. cbn [map]. rewrite Hd, (nps_gcomp cv b Hb).
+  destruct Hb as [[Hb1 Hb2] _].
+  destruct b as [|y b]; [contradiction|].
+  destruct d as [|x d].
+  - cbn [filter nonempty]. unfold strip_list. cbn [map filter app].
+    rewrite rstrip_no by exact Hb2. reflexivity.
+  - cbn [filter nonempty]. unfold strip_list. cbn [map].
+    rewrite strip_no by exact Hb2.
+    destruct (rstrip (cv_sep cv) (x :: d)) as [|z d']; reflexivity.
+Qed.
+
+(* list with its last element singled out *)
+Lemma dl_lower_app cv (Hf : fold_ok cv) X Z : X <> [] ->
+  dl cv (lower cv X ++ cv_sep cv :: Z) = dl cv (X ++ cv_sep cv :: Z).
+Proof.
+  intros HX. unfold dl. destruct (cv_win cv) eqn:Ew; [|reflexivity]. cbn [andb].
+  destruct X as [|x [|y X]]; [contradiction|reflexivity|]. simpl.
+  destruct (N.eqb_spec y 58) as [->|Hy].
+  - apply N.eqb_eq. apply (fold_colon cv Hf Ew).
+  - apply N.eqb_neq. intros H. apply (fold_colon_inv cv Hf y Ew) in H. contradiction.
+Qed.
+
+Lemma head_intercalate_good c L : Forall (good c) L ->
+  match intercalate c L with x :: _ => x <> c | [] => True end.
+Proof.
+  intros H. destruct H as [|p l [Hp1 Hp2] Hl]; [exact I|].
+  rewrite intercalate_cons. destruct p as [|x p]; [contradiction|].
+  assert (x <> c) by (intros ->; apply Hp2; left; reflexivity).
+  destruct l; assumption.
+Qed.
+
+Lemma fin_nodl cv j : dl cv j = false -> match j with x :: _ => x <> cv_sep cv | [] => False end ->
+  fin cv j = cv_sep cv :: j.
+Proof.
+  intros Hd Hj. unfold fin. rewrite Hd. destruct j as [|x j]; [contradiction|]. simpl.
+  destruct (N.eqb_spec x (cv_sep cv)); [contradiction|reflexivity].
+Qed.
+
+Lemma fin_sep cv j : fin cv (cv_sep cv :: j) = cv_sep cv :: j.
+Proof. unfold fin. destruct (dl cv (cv_sep cv :: j)); [reflexivity|]. simpl. rewrite N.eqb_refl. reflexivity. Qed.
+
+(* normalize_path, the three readings *)
+Lemma normalize_eq cv p d :
+  normalize_path cv p d =
+  let n := render cv (pc cv p) in
+  if cv_cs cv then n
+  else if d then join cv [lower cv (dirname cv n); basename cv n]
+  else lower cv n.
+Proof. unfold normalize_path. rewrite join_split_runs. reflexivity. Qed.
+
+Lemma normalize_cs cv p d : cv_cs cv = true -> normalize_path cv p d = render cv (pc cv p).
+Proof. intros H. rewrite normalize_eq. cbv zeta. rewrite H. reflexivity. Qed.
+
+Lemma normalize_ci cv (Hf : fold_ok cv) p : cv_cs cv = false ->
+  normalize_path cv p false = render cv (map (lower cv) (pc cv p)).
+Proof. intros H. rewrite normalize_eq. cbv zeta. rewrite H. apply lower_render. exact Hf. Qed.
+
+(* display form of a component list: everything but the leaf is folded *)
+Definition disp (cv : conv) (l : list str) : list str :=
+  match l with [] => [] | _ => map (lower cv) (removelast l) ++ [last l []] end.
+
+Lemma disp_snoc cv l b : disp cv (l ++ [b]) = map (lower cv) l ++ [b].
+Proof.
+  unfold disp. destruct (l ++ [b]) eqn:E; [destruct l; discriminate|]. rewrite <- E.
+  rewrite removelast_last, last_last. reflexivity.
+Qed.
+
+Lemma display_join cv (Hf : fold_ok cv) l b : Forall (gcomp cv) l -> gcomp cv b ->
+  let n := render cv (l ++ [b]) in
+  join cv [lower cv (dirname cv n); basename cv n] = render cv (map (lower cv) l ++ [b]).
+Proof.
+  intros Hl Hb n.
+  assert (Hr : render cv (l ++ [b]) = fin cv (intercalate (cv_sep cv) (l ++ [b]))) by (destruct l; reflexivity).
+  assert (Hr' : render cv (map (lower cv) l ++ [b]) = fin cv (intercalate (cv_sep cv) (map (lower cv) l ++ [b])))
+    by (destruct l; reflexivity).
+  pose proof Hb as [[Hb1 Hb2] Hb3].
+  assert (Hnb : nps cv b = b) by (apply nps_gcomp; exact Hb).
+  destruct l as [|p l].
+  - (* single component *)
+    subst n. rewrite Hr, Hr'. cbn [app map intercalate].
+    unfold fin at 1 2. destruct (dl cv b) eqn:Ed.
+    + unfold dirname, basename. rewrite (split_nosep cv b Hnb Hb2). cbn [fst snd lower map].
+      rewrite join_pair by (try apply nps_nil; exact Hb). reflexivity.
+    + assert (Ha : add_sep cv b = [] ++ cv_sep cv :: b).
+      { destruct b as [|x b]; [contradiction|]. simpl.
+        destruct (N.eqb_spec x (cv_sep cv)) as [->|]; [exfalso; apply Hb2; left; reflexivity|reflexivity]. }
+      rewrite Ha. unfold dirname, basename. rewrite split_at.
+      * cbn [fst snd]. rewrite join_pair; [|apply nps_fix; [apply lower_noalt; [exact Hf|apply noalt_sep]|left; simpl; rewrite (fold_sep cv Hf); reflexivity]|exact Hb].
+        simpl lower. rewrite (fold_sep cv Hf). rewrite rstrip_cons. simpl. rewrite N.eqb_refl. reflexivity.
+      * change ([] ++ cv_sep cv :: b) with (cv_sep cv :: b).
+        apply nps_fix; [apply noalt_cons; [apply noalt_sep|exact Hb3]|].
+        right. rewrite rstrip_cons, (rstrip_no _ _ Hb2). destruct b; [contradiction|reflexivity].
+      * exact Hb2.
+  - (* at least one directory component *)
+    set (L := p :: l) in *. assert (HL : L <> []) by discriminate.
+    assert (HLl : map (lower cv) L <> []) by discriminate.
+    pose proof (gcomp_map_lower cv Hf L Hl) as Hl'.
+    subst n. rewrite Hr, Hr'. rewrite !intercalate_snoc by assumption.
+    set (X := intercalate (cv_sep cv) L).
+    destruct (intercalate_good_fix (cv_sep cv) L (gcomp_good cv L Hl) HL) as [HX1 HX2]. fold X in HX1, HX2.
+    destruct (intercalate_good_fix (cv_sep cv) _ (gcomp_good cv _ Hl') HLl) as [HY1 HY2].
+    assert (HlX : lower cv X = intercalate (cv_sep cv) (map (lower cv) L)) by (apply lower_intercalate; exact Hf).
+    rewrite <- HlX in *.
+    assert (HnXb : nps cv (X ++ cv_sep cv :: b) = X ++ cv_sep cv :: b).
+    { apply nps_fix; [apply noalt_app; split; [apply noalt_intercalate; exact Hl|apply noalt_cons; [apply noalt_sep|exact Hb3]]|].
+      right. rewrite rstrip_app_keep; [f_equal|]; rewrite rstrip_cons, (rstrip_no _ _ Hb2); destruct b; try contradiction; try reflexivity; discriminate. }
+    destruct (dl cv (X ++ cv_sep cv :: b)) eqn:Ed.
+    + assert (Hfj : fin cv (X ++ cv_sep cv :: b) = X ++ cv_sep cv :: b) by (unfold fin; rewrite Ed; reflexivity).
+      rewrite Hfj.
+      unfold dirname, basename. rewrite split_at by assumption. cbn [fst snd].
+      replace (match X with [] => [cv_sep cv] | _ :: _ => X end) with X by (destruct X; [contradiction|reflexivity]).
+      rewrite join_pair; [|rewrite HlX; apply nps_intercalate; assumption|exact Hb].
+      rewrite HY1. destruct (lower cv X); [contradiction|reflexivity].
+    + assert (Hhead : match X with x :: _ => x <> cv_sep cv | [] => True end)
+        by (apply head_intercalate_good; apply gcomp_good; exact Hl).
+      assert (Ha : add_sep cv (X ++ cv_sep cv :: b) = (cv_sep cv :: X) ++ cv_sep cv :: b).
+      { destruct X as [|x X]; [contradiction|]. simpl.
+        destruct (N.eqb_spec x (cv_sep cv)); [contradiction|reflexivity]. }
+      assert (Hfj : fin cv (X ++ cv_sep cv :: b) = add_sep cv (X ++ cv_sep cv :: b)) by (unfold fin; rewrite Ed; reflexivity).
+      rewrite Hfj, Ha. unfold dirname, basename. rewrite split_at.
+      * cbn [fst snd].
+        assert (Hls : lower cv (cv_sep cv :: X) = cv_sep cv :: lower cv X) by (simpl; rewrite (fold_sep cv Hf); reflexivity).
+        rewrite Hls. rewrite join_pair; [|rewrite HlX; apply nps_sep_intercalate; assumption|exact Hb].
+        rewrite rstrip_cons, HY1. destruct (lower cv X) as [|y Y] eqn:EY; [contradiction|]. rewrite <- EY.
+        change ((cv_sep cv :: lower cv X) ++ cv_sep cv :: b) with (cv_sep cv :: (lower cv X ++ cv_sep cv :: b)).
+        rewrite fin_sep. symmetry. apply fin_nodl.
+        -- rewrite dl_lower_app by assumption. exact Ed.
+        -- rewrite EY. simpl. destruct X as [|x X]; [discriminate|]. simpl in EY. injection EY as <- _.
+           intros H. apply (fold_sep_inv cv Hf) in H. contradiction.
+      * change ((cv_sep cv :: X) ++ cv_sep cv :: b) with (cv_sep cv :: (X ++ cv_sep cv :: b)).
+        apply nps_fix; [apply noalt_cons; [apply noalt_sep|rewrite <- HnXb; apply nps_noalt]|].
+        right. rewrite rstrip_cons.
+        assert (Hrs : rstrip (cv_sep cv) (X ++ cv_sep cv :: b) = X ++ cv_sep cv :: b).
+        { rewrite rstrip_app_keep; [f_equal|]; rewrite rstrip_cons, (rstrip_no _ _ Hb2); destruct b; try contradiction; try reflexivity; discriminate. }
+        rewrite Hrs. destruct (X ++ cv_sep cv :: b) eqn:E; [destruct X; discriminate|reflexivity].
+      * exact Hb2.
+Qed.
+
+(* ------------------------------------------------------------------ normalize_path = render of a key *)
+Lemma snoc_cases {T} (l : list T) : l = [] \/ exists l' b, l = l' ++ [b].
+Proof.
+  destruct l as [|x l]; [left; reflexivity|right].
+  destruct (exists_last (l := x :: l)) as [l' [b E]]; [discriminate|]. exists l', b. exact E.
+Qed.
+
+Lemma join_sep_nil cv : join cv [[cv_sep cv]; []] = [cv_sep cv].
+Proof.
+  rewrite join_eq. unfold norm_list. cbn [map]. rewrite nps_sep, nps_nil. cbn [filter nonempty].
+  unfold strip_list. rewrite rstrip_cons, rstrip_nil, N.eqb_refl. reflexivity.
+Qed.
+
+Lemma split_sep cv : split cv [cv_sep cv] = ([cv_sep cv], []).
+Proof.
+  change [cv_sep cv] with ([] ++ cv_sep cv :: []) at 1. rewrite split_at; [reflexivity| |intros []].
+  apply nps_sep.
+Qed.
+
+Lemma normalize_disp cv (Hf : fold_ok cv) p : cv_cs cv = false ->
+  normalize_path cv p true = render cv (disp cv (pc cv p)).
+Proof.
+  intros Hc. rewrite normalize_eq. cbv zeta. rewrite Hc.
+  pose proof (pc_gcomp cv p) as Hg.
+  destruct (snoc_cases (pc cv p)) as [E|[l [b E]]]; rewrite E in *.
+  - cbn [render disp]. unfold dirname, basename. rewrite split_sep. cbn [fst snd].
+    simpl lower. rewrite (fold_sep cv Hf). apply join_sep_nil.
+  - apply Forall_app in Hg as [Hl Hb]. inversion Hb as [|b' r Hb' _]; subst.
+    rewrite disp_snoc. apply (display_join cv Hf l b Hl Hb').
+Qed.
+
+Definition key (cv : conv) (d : bool) (l : list str) : list str :=
+  if cv_cs cv then l else if d then disp cv l else map (lower cv) l.
+
+Lemma normalize_render cv (Hok : conv_ok cv) p d :
+  normalize_path cv p d = render cv (key cv d (pc cv p)).
+Proof.
+  unfold key. destruct (cv_cs cv) eqn:Hc; [apply normalize_cs; exact Hc|].
+  destruct d; [apply normalize_disp|apply normalize_ci]; auto.
+Qed.
+
+Lemma gcomp_disp cv (Hf : fold_ok cv) l : Forall (gcomp cv) l -> Forall (gcomp cv) (disp cv l).
+Proof.
+  intros H. destruct (snoc_cases l) as [->|[l' [b ->]]]; [constructor|].
+  rewrite disp_snoc. apply Forall_app in H as [Hl Hb]. apply Forall_app. split; [|exact Hb].
+  apply gcomp_map_lower; assumption.
+Qed.
+
+Lemma gcomp_key cv (Hok : conv_ok cv) d l : Forall (gcomp cv) l -> Forall (gcomp cv) (key cv d l).
+Proof.
+  intros H. unfold key. destruct (cv_cs cv) eqn:Hc; [exact H|].
+  destruct d; [apply gcomp_disp|apply gcomp_map_lower]; auto.
+Qed.
+
+Lemma map_lower_idem cv (Hf : fold_ok cv) l : map (lower cv) (map (lower cv) l) = map (lower cv) l.
+Proof. rewrite map_map. apply map_ext. intros q. apply lower_idem. exact Hf. Qed.
+
+Lemma disp_idem cv (Hf : fold_ok cv) l : disp cv (disp cv l) = disp cv l.
+Proof.
+  destruct (snoc_cases l) as [->|[l' [b ->]]]; [reflexivity|].
+  rewrite !disp_snoc. rewrite map_lower_idem by exact Hf. reflexivity.
+Qed.
+
+Lemma key_idem cv (Hok : conv_ok cv) d l : key cv d (key cv d l) = key cv d l.
+Proof.
+  unfold key. destruct (cv_cs cv) eqn:Hc; [reflexivity|].
+  destruct d; [apply disp_idem|apply map_lower_idem]; auto.
+Qed.
+
+Theorem normalize_idem cv (Hok : conv_ok cv) p d :
+  normalize_path cv (normalize_path cv p d) d = normalize_path cv p d.
+Proof.
+  rewrite (normalize_render cv Hok p d).
+  rewrite (normalize_render cv Hok (render cv _) d).
+  rewrite pc_render by (apply gcomp_key; [exact Hok|apply pc_gcomp]).
+  rewrite key_idem by exact Hok. reflexivity.
+Qed.
+
+Lemma render_inj cv l1 l2 : Forall (gcomp cv) l1 -> Forall (gcomp cv) l2 ->
+  render cv l1 = render cv l2 -> l1 = l2.
+Proof.
+  intros H1 H2 E. rewrite <- (pc_render cv l1 H1), <- (pc_render cv l2 H2), E. reflexivity.
+Qed.
+
+(* ------------------------------------------------------------------ paths_match *)
+Lemma match_iff_norm cv a b d :
+  paths_match cv a b d = true <-> normalize_path cv a d = normalize_path cv b d.
+Proof. unfold paths_match. apply str_eqb_eq. Qed.
+
+Lemma match_refl cv a d : paths_match cv a a d = true.
+Proof. apply match_iff_norm. reflexivity. Qed.
+
+Lemma match_sym cv a b d : paths_match cv a b d = paths_match cv b a d.
+Proof. unfold paths_match. apply str_eqb_sym. Qed.
+
+Lemma match_trans cv a b c d :
+  paths_match cv a b d = true -> paths_match cv b c d = true -> paths_match cv a c d = true.
+Proof. rewrite !match_iff_norm. congruence. Qed.
+
+Lemma match_iff_key cv (Hok : conv_ok cv) a b d :
+  paths_match cv a b d = true <-> key cv d (pc cv a) = key cv d (pc cv b).
+Proof.
+  rewrite match_iff_norm, !(normalize_render cv Hok). split; [|congruence].
+  apply render_inj; apply gcomp_key; try exact Hok; apply pc_gcomp.
+Qed.
+
+Lemma match_case cv (Hf : fold_ok cv) p : cv_cs cv = false ->
+  paths_match cv p (lower cv p) false = true.
+Proof.
+  intros Hc. apply match_iff_key; [intros _; exact Hf|].
+  unfold key. rewrite Hc. rewrite pc_lower, map_lower_idem by exact Hf. reflexivity.
+Qed.
+
+(* normalisation does not change the class *)
+Lemma match_normalize cv (Hok : conv_ok cv) p d : paths_match cv (normalize_path cv p d) p d = true.
+Proof. apply match_iff_norm. apply normalize_idem. exact Hok. Qed.
+
+(* display mode is finer than plain matching and folds to it *)
+Lemma lower_disp cv (Hf : fold_ok cv) l : map (lower cv) (disp cv l) = map (lower cv) l.
+Proof.
+  destruct (snoc_cases l) as [->|[l' [b ->]]]; [reflexivity|].
+  rewrite disp_snoc, !map_app, map_lower_idem by exact Hf. reflexivity.
+Qed.
+
+Lemma display_same_class cv (Hf : fold_ok cv) p : cv_cs cv = false ->
+  lower cv (normalize_path cv p true) = normalize_path cv p false.
+Proof.
+  intros Hc. rewrite normalize_disp, normalize_ci by assumption.
+  rewrite lower_render, lower_disp by exact Hf. reflexivity.
+Qed.
+
+Lemma match_display_plain cv (Hok : conv_ok cv) a b :
+  paths_match cv a b true = true -> paths_match cv a b false = true.
+Proof.
+  destruct (cv_cs cv) eqn:Hc.
+  - rewrite !match_iff_norm, !normalize_cs by exact Hc. auto.
+  - pose proof (Hok Hc) as Hf. rewrite !match_iff_norm. intros H.
+    rewrite <- !(display_same_class cv Hf) by exact Hc. rewrite H. reflexivity.
+Qed.
+
+(* the case-sensitive twin of a convention *)
+Definition cs_twin (cv : conv) : conv :=
+  {| cv_sep := cv_sep cv; cv_alt := cv_alt cv; cv_cs := true; cv_win := cv_win cv; cv_fold := cv_fold cv |}.
+
+Lemma nps_render cv l : Forall (gcomp cv) l -> nps cv (render cv l) = render cv l.
+Proof.
+  intros H. destruct l as [|p l]; [apply nps_sep|]. unfold render, fin.
+  destruct (dl cv _); [apply nps_intercalate; [exact H|discriminate]|].
+  pose proof (head_intercalate_good _ _ (gcomp_good cv _ H)) as Hh.
+  unfold add_sep. destruct (intercalate (cv_sep cv) (p :: l)) as [|x j] eqn:E; [reflexivity|].
+  destruct (N.eqb_spec x (cv_sep cv)); [contradiction|].
+  rewrite <- E. apply nps_sep_intercalate; [exact H|discriminate].
+Qed.
+
+Lemma basename_render cv l b : Forall (gcomp cv) l -> gcomp cv b ->
+  basename cv (render cv (l ++ [b])) = b.
+Proof.
+  intros Hl Hb.
+  assert (Hall : Forall (gcomp cv) (l ++ [b])) by (apply Forall_app; split; [exact Hl|constructor; [exact Hb|constructor]]).
+  pose proof (nps_render cv _ Hall) as Hn.
+  pose proof Hb as [[Hb1 Hb2] Hb3].
+  assert (Hform : render cv (l ++ [b]) = b \/ exists a, render cv (l ++ [b]) = a ++ cv_sep cv :: b).
+  { assert (Hr : render cv (l ++ [b]) = fin cv (intercalate (cv_sep cv) (l ++ [b]))) by (destruct l; reflexivity).
+    rewrite Hr.
+    assert (HJ : intercalate (cv_sep cv) (l ++ [b]) = b \/ exists a, intercalate (cv_sep cv) (l ++ [b]) = a ++ cv_sep cv :: b).
+    { destruct l as [|p l]; [left; reflexivity|right]. rewrite intercalate_snoc by discriminate. eexists. reflexivity. }
+    unfold fin. destruct (dl cv _); [exact HJ|].
+    unfold add_sep. destruct HJ as [HJ|[a HJ]]; rewrite HJ.
+    - destruct b as [|x b']; [contradiction|]. destruct (N.eqb x (cv_sep cv)); [left; reflexivity|].
+      right. exists []. reflexivity.
+    - destruct (a ++ cv_sep cv :: b) as [|x j] eqn:E; [destruct a; discriminate|].
+      destruct (N.eqb x (cv_sep cv)); [right; exists a; symmetry; exact E|].
+      right. exists (cv_sep cv :: a). rewrite <- E. reflexivity. }
+  unfold basename. destruct Hform as [E|[a E]]; rewrite E in *.
+  - rewrite split_nosep by assumption. reflexivity.
+  - rewrite split_at by assumption. reflexivity.
+Qed.
+
+Lemma basename_cs_twin cv s : basename (cs_twin cv) s = basename cv s.
+Proof. reflexivity. Qed.
+
+Lemma pc_cs_twin cv s : pc (cs_twin cv) s = pc cv s.
+Proof. reflexivity. Qed.
+
+Lemma render_cs_twin cv l : render (cs_twin cv) l = render cv l.
+Proof. reflexivity. Qed.
+
+Lemma display_keeps_leaf cv (Hf : fold_ok cv) p : cv_cs cv = false ->
+  basename cv (normalize_path cv p true) = basename cv (normalize_path (cs_twin cv) p false).
+Proof.
+  intros Hc. rewrite normalize_disp by assumption.
+  rewrite (normalize_cs (cs_twin cv) p false eq_refl), pc_cs_twin, render_cs_twin.
+  pose proof (pc_gcomp cv p) as Hg.
+  destruct (snoc_cases (pc cv p)) as [E|[l [b E]]]; rewrite E in *; [reflexivity|].
+  rewrite disp_snoc. apply Forall_app in Hg as [Hl Hb]. inversion Hb as [|b' r Hb' _]; subst.
+  rewrite !basename_render; auto. apply gcomp_map_lower; assumption.
+Qed.
+
+(* ------------------------------------------------------------------ is_subpath *)
+Definition lowc (cv : conv) (s : str) : str := if cv_cs cv then s else lower cv s.
+
+Lemma lowc_length cv s : length (lowc cv s) = length s.
+Proof. unfold lowc. destruct (cv_cs cv); [reflexivity|apply lower_length]. Qed.
+
+Lemma lowc_app cv a b : lowc cv (a ++ b) = lowc cv a ++ lowc cv b.
+Proof. unfold lowc. destruct (cv_cs cv); [reflexivity|apply lower_app]. Qed.
+
+Lemma lowc_sep_iff cv (Hok : conv_ok cv) s : lowc cv s = [cv_sep cv] <-> s = [cv_sep cv].
+Proof.
+  unfold lowc. destruct (cv_cs cv) eqn:Hc; [reflexivity|]. apply lower_sep_iff. apply Hok. exact Hc.
+Qed.
+
+Lemma lowc_cons_sep cv (Hok : conv_ok cv) s : lowc cv (cv_sep cv :: s) = cv_sep cv :: lowc cv s.
+Proof.
+  unfold lowc. destruct (cv_cs cv) eqn:Hc; [reflexivity|]. simpl. rewrite (fold_sep cv (Hok Hc)). reflexivity.
+Qed.
+
+Lemma is_subpath_eq cv f t st : f <> [] -> t <> [] ->
+  is_subpath cv f t st =
+  let ff := nps cv f in
+  let tf := nps cv t in
+  let fc := lowc cv ff in
+  let tc := lowc cv tf in
+  if str_eqb fc tc then (if st then NotSub else Rel [cv_sep cv])
+  else if (str_eqb fc [cv_sep cv] && str_eqb (firstn 1 tc) [cv_sep cv])%bool then Rel tf
+  else if Nat.ltb (length ff) (length tf) then
+    match nth_error tf (length ff) with
+    | Some y => if N.eqb y (cv_sep cv)
+                then (if startswith tc fc then Rel (skipn (length ff) tf) else NotSub)
+                else NotSub
+    | None => NotSub
+    end
+  else NotSub.
+Proof. intros Hf Ht. destruct f; [contradiction|]. destruct t; [contradiction|]. reflexivity. Qed.
+
+Lemma is_subpath_nil_l cv t st : is_subpath cv [] t st = NotSub.
+Proof. reflexivity. Qed.
+
+Lemma is_subpath_nil_r cv f st : is_subpath cv f [] st = NotSub.
+Proof. destruct f; reflexivity. Qed.
+
+Lemma is_subpath_args cv f t st : is_subpath cv f t st <> NotSub -> f <> [] /\ t <> [].
+Proof.
+  intros H. split; intros ->; apply H; [apply is_subpath_nil_l|apply is_subpath_nil_r].
+Qed.
+
+(* the relative part is never the empty string (so Python's truthiness test is exact) *)
+Lemma is_subpath_rel_nonempty cv f t st r : is_subpath cv f t st = Rel r -> r <> [].
+Proof.
+  intros H. assert (Hne : is_subpath cv f t st <> NotSub) by (rewrite H; discriminate).
+  apply is_subpath_args in Hne as [Hf Ht]. rewrite is_subpath_eq in H by assumption. cbv zeta in H.
+  destruct (str_eqb _ _) in H.
+  - destruct st; [discriminate|]. injection H as <-. discriminate.
+  - destruct (andb _ _) eqn:E in H.
+    + injection H as <-. apply andb_true_iff in E as [_ E]. apply str_eqb_eq in E.
+      intros En. rewrite En in E. unfold lowc in E. destruct (cv_cs cv); discriminate.
+    + destruct (Nat.ltb_spec (length (nps cv f)) (length (nps cv t))) as [Hl|Hl]; [|discriminate].
+      destruct (nth_error _ _); [|discriminate]. destruct (N.eqb _ _); [|discriminate].
+      destruct (startswith _ _); [|discriminate]. injection H as <-.
+      intros En. apply (f_equal (@length N)) in En. rewrite skipn_length in En. simpl in En.
+      exact (nat_sub_0_lt _ _ Hl En).
+Qed.
+
+(* shape of a relative part *)
+Definition relpart (cv : conv) (rel : str) : Prop :=
+  exists r', rel = cv_sep cv :: r' /\ r' <> [] /\ noalt cv rel /\ rstrip (cv_sep cv) rel = rel.
+
+Lemma rstrip_suffix_fix c a b : rstrip c (a ++ b) = a ++ b -> b <> [] -> rstrip c b = b.
+Proof.
+  intros H Hb. destruct (rstrip c b) eqn:E.
+  - rewrite rstrip_app_drop in H by exact E. exfalso.
+    pose proof (rstrip_length_le c a) as Hle. rewrite H, app_length in Hle.
+    destruct b; [contradiction|]. simpl in Hle. exact (nat_add_S_le _ _ Hle).
+  - rewrite rstrip_app_keep in H by (rewrite E; discriminate). apply app_inv_head in H. congruence.
+Qed.
+
+Lemma is_subpath_rel_shape cv (Hok : conv_ok cv) f t st rel :
+  is_subpath cv f t st = Rel rel -> rel = [cv_sep cv] \/ relpart cv rel.
+Proof.
+  intros H. assert (Hne : is_subpath cv f t st <> NotSub) by (rewrite H; discriminate).
+  apply is_subpath_args in Hne as [Hf Ht]. rewrite is_subpath_eq in H by assumption. cbv zeta in H.
+  destruct (str_eqb_spec (lowc cv (nps cv f)) (lowc cv (nps cv t))) as [Eq|Eq].
+  - destruct st; [discriminate|]. injection H as <-. left. reflexivity.
+  - destruct (andb _ _) eqn:E in H.
+    + injection H as <-. apply andb_true_iff in E as [E1 E2]. apply str_eqb_eq in E1, E2. right.
+      assert (Hnr : nps cv t <> [cv_sep cv]).
+      { intros Hs. apply Eq. rewrite E1, Hs. symmetry. apply lowc_sep_iff; [exact Hok|reflexivity]. }
+      assert (Hhd : exists r', nps cv t = cv_sep cv :: r').
+      { destruct (nps cv t) as [|x r'].
+        - unfold lowc in E2. destruct (cv_cs cv); discriminate.
+        - exists r'. f_equal. unfold lowc in E2. destruct (cv_cs cv) eqn:Hc; simpl in E2; injection E2 as E2; [exact E2|].
+          apply (fold_sep_inv cv (Hok Hc)). exact E2. }
+      destruct Hhd as [r' Hr']. exists r'. split; [exact Hr'|]. split.
+      * intros ->. contradiction.
+      * split; [apply nps_noalt|]. destruct (nps_shape cv t) as [Hs|Hs]; [contradiction|exact Hs].
+    + destruct (Nat.ltb_spec (length (nps cv f)) (length (nps cv t))) as [Hl|Hl]; [|discriminate].
+      destruct (nth_error (nps cv t) (length (nps cv f))) as [y|] eqn:En; [|discriminate].
+      destruct (N.eqb_spec y (cv_sep cv)) as [->|]; [|discriminate].
+      destruct (startswith _ _); [|discriminate]. injection H as <-.
+      pose proof (firstn_skipn (length (nps cv f)) (nps cv t)) as Hsplit.
+      set (n := length (nps cv f)) in *. set (tf := nps cv t) in *.
+      assert (Hsk : exists r', skipn n tf = cv_sep cv :: r').
+      { clearbody n tf. clear -En. revert n En. induction tf as [|z tf IH]; intros [|n] En; simpl in *; try discriminate.
+        - injection En as ->. eexists. reflexivity.
+        - apply IH. exact En. }
+      destruct Hsk as [r' Hr']. destruct r' as [|z r'']; [left; exact Hr'|right].
+      exists (z :: r''). split; [exact Hr'|]. split; [discriminate|]. split.
+      * eapply noalt_incl; [|apply (nps_noalt cv t)]. fold tf. rewrite <- Hsplit at 2. apply incl_appr, incl_refl.
+      * destruct (nps_shape cv t) as [Hs|Hs]; fold tf in Hs.
+        -- exfalso. assert (Hlen : length (skipn n tf) <= length tf) by (rewrite skipn_length; apply Nat.le_sub_l).
+           rewrite Hr', Hs in Hlen. simpl in Hlen. apply le_S_n in Hlen. inversion Hlen.
+        -- rewrite <- Hsplit in Hs. apply rstrip_suffix_fix in Hs; [exact Hs|rewrite Hr'; discriminate].
+Qed.
+
+(* the core: below a non-root folder, and below the root *)
+Lemma nps_app_relpart cv ff rel : noalt cv ff -> relpart cv rel -> nps cv (ff ++ rel) = ff ++ rel.
+Proof.
+  intros Hn [r' [-> [Hr [Hna Hrs]]]]. apply nps_fix; [apply noalt_app; split; assumption|].
+  right. rewrite rstrip_app_keep by (rewrite Hrs; discriminate). rewrite Hrs. reflexivity.
+Qed.
+
+Lemma is_subpath_under cv (Hok : conv_ok cv) f rel st :
+  f <> [] -> nps cv f <> [cv_sep cv] -> relpart cv rel ->
+  is_subpath cv f (nps cv f ++ rel) st = Rel rel.
+Proof.
+  intros Hf Hroot Hrel. pose proof Hrel as [r' [E [Hr [Hna Hrs]]]].
+  rewrite is_subpath_eq; [|exact Hf|subst rel; destruct (nps cv f); discriminate]. cbv zeta.
+  rewrite (nps_app_relpart cv _ _ (nps_noalt cv f) Hrel). rewrite lowc_app.
+  destruct (str_eqb_spec (lowc cv (nps cv f)) (lowc cv (nps cv f) ++ lowc cv rel)) as [Eq|_].
+  { exfalso. apply (f_equal (@length N)) in Eq. rewrite app_length, !lowc_length in Eq. subst rel. simpl in Eq.
+    exact (nat_add_S_neq _ _ Eq). }
+  destruct (str_eqb_spec (lowc cv (nps cv f)) [cv_sep cv]) as [Eq|_].
+  { exfalso. apply Hroot. apply (lowc_sep_iff cv Hok). exact Eq. }
+  cbn [andb].
+  destruct (Nat.ltb_spec (length (nps cv f)) (length (nps cv f ++ rel))) as [_|Hl];
+    [|rewrite app_length in Hl; subst rel; simpl in Hl; exfalso; exact (nat_add_S_le _ _ Hl)].
+  rewrite E at 1. rewrite nth_error_len_app, N.eqb_refl, startswith_app, skipn_len_app. reflexivity.
+Qed.
+
+Lemma is_subpath_root cv (Hok : conv_ok cv) f rel st :
+  nps cv f = [cv_sep cv] -> relpart cv rel -> is_subpath cv f rel st = Rel rel.
+Proof.
+  intros Hroot Hrel. pose proof Hrel as [r' [E [Hr [Hna Hrs]]]].
+  assert (Hnr : nps cv rel = rel) by (apply nps_fix; [exact Hna|right; exact Hrs]).
+  rewrite is_subpath_eq; [|intros ->; discriminate|subst rel; discriminate]. cbv zeta.
+  rewrite Hroot, Hnr.
+  assert (Hls : lowc cv [cv_sep cv] = [cv_sep cv]) by (apply lowc_sep_iff; [exact Hok|reflexivity]).
+  rewrite Hls.
+  destruct (str_eqb_spec [cv_sep cv] (lowc cv rel)) as [Eq|_].
+  { exfalso. apply (f_equal (@length N)) in Eq. rewrite lowc_length in Eq. subst rel. destruct r'; [contradiction|discriminate]. }
+  rewrite str_eqb_refl. rewrite E at 1. rewrite lowc_cons_sep by exact Hok. simpl firstn. rewrite str_eqb_refl.
+  reflexivity.
+Qed.
+
+(* ------------------------------------------------------------------ prefix sibling *)
+Lemma prefix_sibling cv (Hok : conv_ok cv) f c s st :
+  nps cv f <> [] -> nps cv f <> [cv_sep cv] -> c <> cv_sep cv -> cv_alt cv <> Some c ->
+  is_subpath cv f (nps cv f ++ c :: s) st = NotSub.
+Proof.
+  intros Hne Hroot Hc Hca. set (ff := nps cv f) in *.
+  assert (Hf : f <> []) by (intros ->; apply Hne; reflexivity).
+  assert (Hcn : noalt cv [c]) by (intros a Ha _ [<-|[]]; apply Hca; exact Ha).
+  assert (Htf : exists s', nps cv (ff ++ c :: s) = ff ++ c :: s').
+  { rewrite nps_eq. rewrite rp_app. change (c :: s) with ([c] ++ s). rewrite rp_app.
+    rewrite (rp_noalt cv ff (nps_noalt cv f)), (rp_noalt cv [c] Hcn).
+    destruct (str_eqb_spec (ff ++ [c] ++ rp cv s) [cv_sep cv]) as [E|_].
+    { exfalso. destruct ff as [|x [|y ff']]; [contradiction| |]; simpl in E; discriminate. }
+    exists (rstrip (cv_sep cv) (rp cv s)). simpl app.
+    assert (Hk : rstrip (cv_sep cv) (c :: rp cv s) = c :: rstrip (cv_sep cv) (rp cv s)) by (apply rstrip_head; exact Hc).
+    rewrite rstrip_app_keep by (rewrite Hk; discriminate). rewrite Hk. reflexivity. }
+  destruct Htf as [s' Htf].
+  rewrite is_subpath_eq; [|exact Hf|destruct ff; discriminate]. cbv zeta. fold ff. rewrite Htf, lowc_app.
+  destruct (str_eqb_spec (lowc cv ff) (lowc cv ff ++ lowc cv (c :: s'))) as [Eq|_].
+  { exfalso. apply (f_equal (@length N)) in Eq. rewrite app_length, !lowc_length in Eq. simpl in Eq.
+    exact (nat_add_S_neq _ _ Eq). }
+  destruct (str_eqb_spec (lowc cv ff) [cv_sep cv]) as [Eq|_].
+  { exfalso. apply Hroot. apply (lowc_sep_iff cv Hok). exact Eq. }
+  cbn [andb]. rewrite nth_error_len_app.
+  destruct (N.eqb_spec c (cv_sep cv)); [contradiction|].
+  destruct (Nat.ltb _ _); reflexivity.
+Qed.
+
+(* ------------------------------------------------------------------ replace_path *)
+Lemma replace_moves_rel cv f p t rel :
+  is_subpath cv f p false = Rel rel ->
+  replace_path cv p f t = RepOk (nps cv t ++ (if str_eqb rel [cv_sep cv] then [] else rel)).
+Proof.
+  intros H. unfold replace_path. rewrite H. pose proof (is_subpath_rel_nonempty _ _ _ _ _ H) as Hne.
+  destruct rel; [contradiction|reflexivity].
+Qed.
+
+Lemma replace_iff_sub cv f p t :
+  replace_path cv p f t = RepValueError <-> is_subpath cv f p false = NotSub.
+Proof.
+  unfold replace_path. destruct (is_subpath cv f p false) as [|rel] eqn:H.
+  - split; reflexivity.
+  - pose proof (is_subpath_rel_nonempty _ _ _ _ _ H) as Hne.
+    destruct rel; [contradiction|]. split; discriminate.
+Qed.
+
+Lemma replace_lands_inside cv (Hok : conv_ok cv) f p t rel out :
+  is_subpath cv f p false = Rel rel -> rel <> [cv_sep cv] ->
+  t <> [] -> nps cv t <> [cv_sep cv] ->
+  replace_path cv p f t = RepOk out ->
+  is_subpath cv t out false = Rel rel.
+Proof.
+  intros H Hrel Ht Hroot Hrep. rewrite (replace_moves_rel _ _ _ _ _ H) in Hrep. injection Hrep as <-.
+  destruct (str_eqb_spec rel [cv_sep cv]) as [E|_]; [contradiction|].
+  destruct (is_subpath_rel_shape cv Hok _ _ _ _ H) as [E|Hs]; [contradiction|].
+  apply is_subpath_under; assumption.
+Qed.
+
+(* ------------------------------------------------------------------ join puts the relative part inside *)
+Definition abs_path (cv : conv) (f : str) : Prop := exists g, nps cv f = cv_sep cv :: g.
+
+Lemma strip_head_ne c s : match strip c s with x :: _ => x <> c | [] => True end.
+Proof. rewrite <- strip_idem_l. apply lstrip_head_ne. Qed.
+
+Lemma join_two cv f r ff r' :
+  nps cv f = ff -> ff <> [] -> strip (cv_sep cv) (nps cv r) = r' -> r' <> [] ->
+  join cv [f; r] = fin cv (match rstrip (cv_sep cv) ff with [] => r' | d => d ++ cv_sep cv :: r' end).
+Proof.
+  intros Hf Hff Hr Hr'. rewrite join_eq. unfold norm_list. cbn [map]. rewrite Hf.
+  destruct (nps cv r) as [|y rr] eqn:Er; [exfalso; apply Hr'; rewrite <- Hr; reflexivity|].
+  destruct ff as [|x ff']; [contradiction|]. cbn [filter nonempty]. unfold strip_list. cbn [map].
+  rewrite Hr. destruct r' as [|z r'']; [contradiction|]. cbn [filter nonempty].
+  destruct (rstrip (cv_sep cv) (x :: ff')); reflexivity.
+Qed.
+
+Lemma join_blank cv f r : abs_path cv f -> strip (cv_sep cv) (nps cv r) = [] -> join cv [f; r] = nps cv f.
+Proof.
+  intros [g Hg] Hr. rewrite join_eq. unfold norm_list. cbn [map]. rewrite Hg.
+  set (L := strip_list cv _).
+  assert (Hl : L = filter nonempty [rstrip (cv_sep cv) (cv_sep cv :: g)]).
+  { subst L. unfold strip_list. destruct (nps cv r) as [|y rr] eqn:Er; cbn [filter nonempty map]; [apply app_nil_r|].
+    rewrite Hr. apply app_nil_r. }
+  rewrite Hl. clear Hl.
+  destruct (nps_shape cv f) as [Hs|Hs]; rewrite Hg in Hs.
+  - injection Hs as ->. rewrite rstrip_cons, rstrip_nil, N.eqb_refl. reflexivity.
+  - rewrite Hs. cbn [filter nonempty intercalate]. apply fin_sep.
+Qed.
+
+Lemma relpart_of_strip cv r : strip (cv_sep cv) (nps cv r) <> [] ->
+  relpart cv (cv_sep cv :: strip (cv_sep cv) (nps cv r)).
+Proof.
+  intros Hr. exists (strip (cv_sep cv) (nps cv r)). split; [reflexivity|]. split; [exact Hr|]. split.
+  - apply noalt_cons; [apply noalt_sep|]. eapply noalt_incl; [apply strip_incl|apply nps_noalt].
+  - rewrite rstrip_cons, strip_idem_r. destruct (strip (cv_sep cv) (nps cv r)); [contradiction|reflexivity].
+Qed.
+
+Lemma join_inside_eq cv (Hok : conv_ok cv) f r st :
+  abs_path cv f -> strip (cv_sep cv) (nps cv r) <> [] -> dl cv (join cv [f; r]) = false ->
+  is_subpath cv f (join cv [f; r]) st = Rel (cv_sep cv :: strip (cv_sep cv) (nps cv r)).
+Proof.
+  intros [g Hg] Hr Hdl. pose proof (relpart_of_strip cv r Hr) as Hrel.
+  set (r' := strip (cv_sep cv) (nps cv r)) in *.
+  assert (Hj : join cv [f; r] = fin cv (match rstrip (cv_sep cv) (cv_sep cv :: g) with [] => r' | d => d ++ cv_sep cv :: r' end)).
+  { apply join_two; [exact Hg|discriminate|reflexivity|exact Hr]. }
+  assert (Hf : f <> []) by (intros ->; discriminate).
+  destruct (nps_shape cv f) as [Hs|Hs]; rewrite Hg in Hs.
+  - (* the folder is the root *)
+    injection Hs as ->. rewrite rstrip_cons, rstrip_nil, N.eqb_refl in Hj.
+    rewrite Hj in Hdl |- *. unfold fin in Hdl |- *. destruct (dl cv r') eqn:Ed; [congruence|].
+    pose proof (strip_head_ne (cv_sep cv) (nps cv r)) as Hh. fold r' in Hh.
+    assert (Ha : add_sep cv r' = cv_sep cv :: r').
+    { unfold add_sep. destruct r' as [|x r'']; [contradiction|]. destruct (N.eqb_spec x (cv_sep cv)); [contradiction|reflexivity]. }
+    rewrite Ha. apply is_subpath_root; assumption.
+  - rewrite Hs in Hj. change ((cv_sep cv :: g) ++ cv_sep cv :: r') with (cv_sep cv :: (g ++ cv_sep cv :: r')) in Hj.
+    rewrite fin_sep in Hj. rewrite Hj.
+    change (cv_sep cv :: g ++ cv_sep cv :: r') with ((cv_sep cv :: g) ++ cv_sep cv :: r'). rewrite <- Hg.
+    apply is_subpath_under; try assumption. rewrite Hg. intros E. injection E as ->.
+    rewrite rstrip_cons, rstrip_nil, N.eqb_refl in Hs. discriminate.
+Qed.
+
+Lemma pc_sep_strip cv r : pc cv (cv_sep cv :: strip (cv_sep cv) (nps cv r)) = pc cv r.
+Proof.
+  rewrite pc_noalt.
+  - rewrite comps_cons_sep, comps_strip. apply comps_nps.
+  - apply noalt_cons; [apply noalt_sep|]. eapply noalt_incl; [apply strip_incl|apply nps_noalt].
+Qed.
+
+Theorem join_inside cv (Hok : conv_ok cv) f r st d :
+  abs_path cv f -> strip (cv_sep cv) (nps cv r) <> [] -> dl cv (join cv [f; r]) = false ->
+  exists rel, is_subpath cv f (join cv [f; r]) st = Rel rel /\ paths_match cv rel r d = true.
+Proof.
+  intros Ha Hr Hdl. eexists. split; [apply join_inside_eq; assumption|].
+  apply match_iff_key; [exact Hok|]. rewrite pc_sep_strip. reflexivity.
+Qed.
+
+(* ------------------------------------------------------------------ split then join *)
+Lemma split_nps cv p : split cv (nps cv p) = split cv p.
+Proof. unfold split. rewrite nps_idem. reflexivity. Qed.
+
+Lemma pc_nil cv : pc cv [] = [].
+Proof. unfold pc. rewrite rp_nil. reflexivity. Qed.
+
+Lemma pc_sep cv : pc cv [cv_sep cv] = [].
+Proof. rewrite (pc_noalt cv _ (noalt_sep cv)). simpl. rewrite N.eqb_refl. reflexivity. Qed.
+
+Lemma pc_split cv p : pc cv (dirname cv p) ++ pc cv (basename cv p) = pc cv p.
+Proof.
+  unfold dirname, basename. rewrite <- split_nps.
+  destruct (in_dec N.eq_dec (cv_sep cv) (nps cv p)) as [Hin|Hnin].
+  - destruct (last_occurrence _ _ Hin) as [a [b [E Hb]]].
+    assert (Hn : nps cv (a ++ cv_sep cv :: b) = a ++ cv_sep cv :: b) by (rewrite <- E; apply nps_idem).
+    rewrite E, split_at by assumption. cbn [fst snd].
+    pose proof (nps_noalt cv p) as Hna. rewrite E in Hna. apply noalt_app in Hna as [Ha Hb'].
+    assert (Hb'' : noalt cv b) by (eapply noalt_incl; [|exact Hb']; apply incl_tl, incl_refl).
+    rewrite <- (comps_nps cv p), E, comps_app_sep, (pc_noalt cv b Hb''). f_equal.
+    destruct a; [apply pc_sep|apply pc_noalt; exact Ha].
+  - rewrite split_nosep; [|apply nps_idem|exact Hnin]. cbn [fst snd]. rewrite pc_nil, pc_nps. reflexivity.
+Qed.
+
+Theorem split_join cv (Hok : conv_ok cv) p d :
+  paths_match cv (join cv [dirname cv p; basename cv p]) p d = true.
+Proof.
+  apply match_iff_key; [exact Hok|]. rewrite pc_join. cbn [map concat]. rewrite app_nil_r, pc_split. reflexivity.
+Qed.
+
+(* ------------------------------------------------------------------ is_subpath splits the components *)
+Definition lowk (cv : conv) (l : list str) : list str := if cv_cs cv then l else map (lower cv) l.
+
+Lemma lowk_app cv a b : lowk cv (a ++ b) = lowk cv a ++ lowk cv b.
+Proof. unfold lowk. destruct (cv_cs cv); [reflexivity|apply map_app]. Qed.
+
+Lemma lowk_key cv l : lowk cv l = key cv false l.
+Proof. reflexivity. Qed.
+
+Lemma lowk_pc_lowc cv (Hok : conv_ok cv) a b : lowc cv a = lowc cv b -> lowk cv (pc cv a) = lowk cv (pc cv b).
+Proof.
+  unfold lowc, lowk. destruct (cv_cs cv) eqn:Hc; [congruence|]. intros H.
+  rewrite <- !(pc_lower cv (Hok Hc)). rewrite H. reflexivity.
+Qed.
+
+Lemma lowc_firstn cv n s : lowc cv (firstn n s) = firstn n (lowc cv s).
+Proof. unfold lowc. destruct (cv_cs cv); [reflexivity|]. unfold lower. symmetry. apply firstn_map. Qed.
+
+Lemma is_subpath_components cv (Hok : conv_ok cv) f p st r :
+  is_subpath cv f p st = Rel r ->
+  lowk cv (pc cv p) = lowk cv (pc cv f) ++ lowk cv (pc cv r).
+Proof.
+  intros H. assert (Hne : is_subpath cv f p st <> NotSub) by (rewrite H; discriminate).
+  apply is_subpath_args in Hne as [Hf Hp]. rewrite is_subpath_eq in H by assumption. cbv zeta in H.
+  destruct (str_eqb_spec (lowc cv (nps cv f)) (lowc cv (nps cv p))) as [Eq|Eq].
+  - destruct st; [discriminate|]. injection H as <-. rewrite pc_sep.
+    apply (lowk_pc_lowc cv Hok) in Eq. rewrite !pc_nps in Eq. rewrite Eq.
+    unfold lowk at 3. destruct (cv_cs cv); simpl; rewrite app_nil_r; reflexivity.
+  - destruct (andb _ _) eqn:E in H.
+    + injection H as <-. apply andb_true_iff in E as [E1 _]. apply str_eqb_eq in E1.
+      apply (proj1 (lowc_sep_iff cv Hok _)) in E1.
+      rewrite <- (pc_nps cv f), E1, pc_sep, pc_nps.
+      unfold lowk at 2. destruct (cv_cs cv); reflexivity.
+    + destruct (Nat.ltb_spec (length (nps cv f)) (length (nps cv p))) as [Hl|Hl]; [|discriminate].
+      destruct (nth_error (nps cv p) (length (nps cv f))) as [y|] eqn:En; [|discriminate].
+      destruct (N.eqb_spec y (cv_sep cv)) as [->|]; [|discriminate].
+      destruct (startswith _ _) eqn:Es; [|discriminate]. injection H as <-.
+      set (n := length (nps cv f)) in *. set (tf := nps cv p) in *.
+      pose proof (firstn_skipn n tf) as Hsplit.
+      assert (Hsk : exists r', skipn n tf = cv_sep cv :: r').
+      { clearbody n tf. clear -En. revert n En. induction tf as [|z tf IH]; intros [|n] En; simpl in *; try discriminate.
+        - injection En as ->. eexists. reflexivity.
+        - apply IH. exact En. }
+      destruct Hsk as [r' Hr'].
+      pose proof (nps_noalt cv p) as Hna. fold tf in Hna. rewrite <- Hsplit in Hna. apply noalt_app in Hna as [Hna1 Hna2].
+      assert (Hpre : lowc cv (firstn n tf) = lowc cv (nps cv f)).
+      { apply startswith_spec in Es as [x Hx]. rewrite lowc_firstn, Hx.
+        replace n with (length (lowc cv (nps cv f))) by apply lowc_length. apply firstn_len_app. }
+      apply (lowk_pc_lowc cv Hok) in Hpre. rewrite pc_nps in Hpre. rewrite <- Hpre.
+      rewrite <- (pc_nps cv p). fold tf. rewrite <- Hsplit at 1.
+      rewrite (pc_noalt cv (firstn n tf ++ skipn n tf)) by (apply noalt_app; split; assumption).
+      rewrite Hr' in *. rewrite comps_app_sep, lowk_app.
+      rewrite (pc_noalt cv _ Hna1), (pc_noalt cv _ Hna2), comps_cons_sep. reflexivity.
+Qed.
+
+Lemma is_subpath_self cv f : f <> [] -> nps cv f <> [] -> is_subpath cv f (nps cv f) false = Rel [cv_sep cv].
+Proof.
+  intros Hf Hn. rewrite is_subpath_eq by assumption. cbv zeta. rewrite nps_idem, str_eqb_refl. reflexivity.
+Qed.
+
+(* ------------------------------------------------------------------ translate *)
+(* one direction: from convention cf / root rf to convention ct / root rt *)
+Definition trans1 (cf ct : conv) (rf rt p : str) : option str :=
+  match is_subpath cf rf p false with
+  | NotSub => None
+  | Rel [] => None
+  | Rel r => Some (join ct [rt; r])
+  end.
+
+Definition cv_of (cv0 cv1 : conv) (side : bool) : conv := if side then cv1 else cv0.
+Definition root_of (r0 r1 : str) (side : bool) : str := if side then r1 else r0.
+
+Lemma translate_trans1 cv0 cv1 r0 r1 side p :
+  translate cv0 cv1 r0 r1 side p =
+  trans1 (cv_of cv0 cv1 (negb side)) (cv_of cv0 cv1 side) (root_of r0 r1 (negb side)) (root_of r0 r1 side) p.
+Proof. destruct side; reflexivity. Qed.
+
+Lemma trans1_outside cf ct rf rt p : is_subpath cf rf p false = NotSub <-> trans1 cf ct rf rt p = None.
+Proof.
+  unfold trans1. destruct (is_subpath cf rf p false) as [|r] eqn:H; [split; reflexivity|].
+  pose proof (is_subpath_rel_nonempty _ _ _ _ _ H). destruct r; [contradiction|]. split; discriminate.
+Qed.
+
+Lemma trans1_inside cf ct rf rt p r : is_subpath cf rf p false = Rel r -> trans1 cf ct rf rt p = Some (join ct [rt; r]).
+Proof.
+  intros H. unfold trans1. rewrite H. pose proof (is_subpath_rel_nonempty _ _ _ _ _ H).
+  destruct r; [contradiction|reflexivity].
+Qed.
+
+Lemma trans1_lands_inside cf ct (Hok : conv_ok ct) rf rt p q :
+  abs_path ct rt -> trans1 cf ct rf rt p = Some q -> dl ct q = false ->
+  is_subpath ct rt q false <> NotSub.
+Proof.
+  intros Ha Ht Hdl. unfold trans1 in Ht. destruct (is_subpath cf rf p false) as [|r]; [discriminate|].
+  destruct r as [|x r]; [discriminate|]. injection Ht as <-.
+  destruct (strip (cv_sep ct) (nps ct (x :: r))) eqn:Es.
+  - rewrite (join_blank ct rt (x :: r) Ha Es). destruct Ha as [g Hg].
+    rewrite is_subpath_self; [discriminate|intros ->; discriminate|rewrite Hg; discriminate].
+  - rewrite join_inside_eq; try assumption; [discriminate|rewrite Es; discriminate].
+Qed.
+
+Definition same_syntax (a b : conv) : Prop := cv_sep a = cv_sep b /\ cv_alt a = cv_alt b.
+
+Lemma nps_syn a b s : same_syntax a b -> nps a s = nps b s.
+Proof. intros [H1 H2]. unfold nps. rewrite H1, H2. reflexivity. Qed.
+
+Lemma pc_syn a b s : same_syntax a b -> pc a s = pc b s.
+Proof. intros [H1 H2]. unfold pc, rp. rewrite H1, H2. reflexivity. Qed.
+
+Lemma abs_syn a b s : same_syntax a b -> abs_path a s -> abs_path b s.
+Proof. intros Hs [g Hg]. exists g. rewrite <- (nps_syn a b s Hs). destruct Hs as [<- _]. exact Hg. Qed.
+
+Lemma dl_nowin cv j : cv_win cv = false -> dl cv j = false.
+Proof. intros H. unfold dl. rewrite H. reflexivity. Qed.
+
+Lemma trans1_roundtrip cf ct (Hokf : conv_ok cf) (Hokt : conv_ok ct) rf rt p :
+  same_syntax cf ct -> abs_path cf rf -> abs_path ct rt ->
+  is_subpath cf rf p false <> NotSub ->
+  exists q, trans1 cf ct rf rt p = Some q /\
+    (dl ct q = false ->
+     exists back, trans1 ct cf rt rf q = Some back /\ paths_match cf back p false = true).
+Proof.
+  intros Hsyn Haf Hat Hin.
+  destruct (is_subpath cf rf p false) as [|r] eqn:Hr; [contradiction|]. clear Hin.
+  pose proof (is_subpath_components cf Hokf _ _ _ _ Hr) as Hcomp.
+  exists (join ct [rt; r]). rewrite (trans1_inside _ _ _ _ _ _ Hr). split; [reflexivity|]. intros Hdl.
+  assert (Hrf : rf <> []) by (destruct Haf as [g Hg]; intros ->; discriminate).
+  assert (Hrt : rt <> []) by (destruct Hat as [g Hg]; intros ->; discriminate).
+  assert (Hnrf : nps cf rf <> []) by (destruct Haf as [g Hg]; rewrite Hg; discriminate).
+  assert (Hnrt : nps ct rt <> []) by (destruct Hat as [g Hg]; rewrite Hg; discriminate).
+  destruct (strip (cv_sep ct) (nps ct r)) as [|z w] eqn:Es.
+  - (* blank relative part: the path is the root *)
+    rewrite (join_blank ct rt r Hat Es).
+    exists (nps cf rf). split.
+    + rewrite (trans1_inside _ _ _ _ _ _ (is_subpath_self ct rt Hrt Hnrt)).
+      f_equal. apply join_blank; [exact Haf|].
+      rewrite <- (proj1 Hsyn), nps_sep. unfold strip. simpl lstrip. rewrite N.eqb_refl. reflexivity.
+    + apply match_iff_key; [exact Hokf|]. rewrite <- !lowk_key, Hcomp, pc_nps.
+      assert (Hpr : pc cf r = []).
+      { rewrite (pc_syn cf ct r Hsyn). rewrite <- comps_nps, <- comps_strip, Es. reflexivity. }
+      rewrite Hpr. unfold lowk at 3. destruct (cv_cs cf); simpl; rewrite app_nil_r; reflexivity.
+  - assert (Hne : strip (cv_sep ct) (nps ct r) <> []) by (rewrite Es; discriminate).
+    pose proof (join_inside_eq ct Hokt rt r false Hat Hne Hdl) as Hback.
+    eexists. split; [apply (trans1_inside _ _ _ _ _ _ Hback)|].
+    apply match_iff_key; [exact Hokf|]. rewrite <- !lowk_key, Hcomp, pc_join. cbn [map concat].
+    rewrite app_nil_r, lowk_app. f_equal. f_equal.
+    rewrite (pc_syn cf ct _ Hsyn), pc_sep_strip. symmetry. apply pc_syn. exact Hsyn.
+Qed.
+
+(* translate, both sides *)
+Theorem translate_outside cv0 cv1 r0 r1 side p :
+  is_subpath (cv_of cv0 cv1 (negb side)) (root_of r0 r1 (negb side)) p false = NotSub <->
+  translate cv0 cv1 r0 r1 side p = None.
+Proof. rewrite translate_trans1. apply trans1_outside. Qed.
+
+Theorem translate_inside cv0 cv1 r0 r1 side p r :
+  is_subpath (cv_of cv0 cv1 (negb side)) (root_of r0 r1 (negb side)) p false = Rel r ->
+  translate cv0 cv1 r0 r1 side p = Some (join (cv_of cv0 cv1 side) [root_of r0 r1 side; r]).
+Proof. rewrite translate_trans1. apply trans1_inside. Qed.
+
+Theorem translate_lands_inside cv0 cv1 r0 r1 side p q :
+  conv_ok (cv_of cv0 cv1 side) -> abs_path (cv_of cv0 cv1 side) (root_of r0 r1 side) ->
+  translate cv0 cv1 r0 r1 side p = Some q -> dl (cv_of cv0 cv1 side) q = false ->
+  is_subpath (cv_of cv0 cv1 side) (root_of r0 r1 side) q false <> NotSub.
+Proof. intros Hok Ha. rewrite translate_trans1. apply trans1_lands_inside; assumption. Qed.
+
+Theorem translate_roundtrip cv0 cv1 r0 r1 side p :
+  conv_ok cv0 -> conv_ok cv1 -> same_syntax cv0 cv1 -> abs_path cv0 r0 -> abs_path cv1 r1 ->
+  is_subpath (cv_of cv0 cv1 (negb side)) (root_of r0 r1 (negb side)) p false <> NotSub ->
+  exists q,
+    translate cv0 cv1 r0 r1 side p = Some q /\
+    (dl (cv_of cv0 cv1 side) q = false ->
+     exists back,
+       translate cv0 cv1 r0 r1 (negb side) q = Some back /\
+       paths_match (cv_of cv0 cv1 (negb side)) back p false = true).
+Proof.
+  intros H0 H1 Hs Ha0 Ha1.
+  assert (Hs' : same_syntax cv1 cv0) by (destruct Hs; split; symmetry; assumption).
+  destruct side; cbn [negb cv_of root_of]; intros Hin.
+  - destruct (trans1_roundtrip cv0 cv1 H0 H1 r0 r1 p Hs Ha0 Ha1 Hin) as [q [A B]].
+    exists q. rewrite translate_trans1. cbn [negb cv_of root_of]. split; [exact A|]. intros Hdl.
+    destruct (B Hdl) as [back [B1 B2]]. exists back. rewrite translate_trans1. cbn [negb cv_of root_of]. auto.
+  - destruct (trans1_roundtrip cv1 cv0 H1 H0 r1 r0 p Hs' Ha1 Ha0 Hin) as [q [A B]].
+    exists q. rewrite translate_trans1. cbn [negb cv_of root_of]. split; [exact A|]. intros Hdl.
+    destruct (B Hdl) as [back [B1 B2]]. exists back. rewrite translate_trans1. cbn [negb cv_of root_of]. auto.
+Qed.
+
+(* replace_path lands inside the new folder, with an equivalent relative part, also for the root *)
+Lemma replace_lands_inside_equiv cv (Hok : conv_ok cv) f p t rel out :
+  is_subpath cv f p false = Rel rel -> rel <> [cv_sep cv] -> t <> [] ->
+  replace_path cv p f t = RepOk out ->
+  exists rel', is_subpath cv t out false = Rel rel' /\ pc cv rel' = pc cv rel.
+Proof.
+  intros H Hrel Ht Hrep.
+  destruct (str_eqb_spec (nps cv t) [cv_sep cv]) as [Hroot|Hroot].
+  - rewrite (replace_moves_rel _ _ _ _ _ H) in Hrep. injection Hrep as <-.
+    destruct (str_eqb_spec rel [cv_sep cv]) as [E|_]; [contradiction|].
+    destruct (is_subpath_rel_shape cv Hok _ _ _ _ H) as [E|Hs]; [contradiction|].
+    rewrite Hroot. exists ([cv_sep cv] ++ rel). split.
+    + apply is_subpath_root; [exact Hok|exact Hroot|]. destruct Hs as [r' [E [Hr [Hna Hrs]]]].
+      exists rel. split; [reflexivity|]. split; [subst rel; discriminate|]. split.
+      * apply noalt_cons; [apply noalt_sep|exact Hna].
+      * simpl. rewrite rstrip_cons, Hrs. destruct rel; [discriminate|reflexivity].
+    + destruct Hs as [r' [E [Hr [Hna Hrs]]]].
+      rewrite !pc_noalt; [apply comps_cons_sep|exact Hna|apply noalt_cons; [apply noalt_sep|exact Hna]].
+  - exists rel. split; [|reflexivity]. eapply replace_lands_inside; eassumption.
+Qed.
+
+(* ------------------------------------------------------------------ the concrete fold of the executable model *)
+Definition cv_std (cs win : bool) : conv :=
+  {| cv_sep := 47; cv_alt := Some 92%N; cv_cs := cs; cv_win := win; cv_fold := fold_std |}.
+
+Lemma fold_std_cases c :
+  (fold_std c = c /\ ~ (65 <= c <= 90)%N /\ ~ ((192 <= c <= 222)%N /\ c <> 215%N)) \/
+  (fold_std c = (c + 32)%N /\ ((65 <= c <= 90)%N \/ ((192 <= c <= 222)%N /\ c <> 215%N))).
+Proof.
+  unfold fold_std.
+  destruct (N.leb_spec 65 c), (N.leb_spec c 90), (N.leb_spec 192 c), (N.leb_spec c 222), (N.eqb_spec c 215);
+    cbn [andb negb]; lia.
+Qed.
+
+Lemma fold_std_ok cs win : fold_ok (cv_std cs win).
+Proof.
+  constructor; cbn [cv_fold cv_sep cv_alt cv_win cv_std].
+  - intros c. destruct (fold_std_cases c) as [[E _]|[E H]]; rewrite E; [exact E|].
+    destruct (fold_std_cases (c + 32)) as [[E2 _]|[_ H2]]; [exact E2|lia].
+  - intros c. destruct (fold_std_cases c) as [[E _]|[E H]]; rewrite E; [reflexivity|lia].
+  - intros a Ha c. injection Ha as <-. destruct (fold_std_cases c) as [[E _]|[E H]]; rewrite E; [reflexivity|lia].
+  - intros _ c. destruct (fold_std_cases c) as [[E _]|[E H]]; rewrite E; [reflexivity|lia].
+Qed.
+
+Lemma cv_std_ok cs win : conv_ok (cv_std cs win).
+Proof. intros _. apply fold_std_ok. Qed.
+
+(* strict only removes the "same path" answer *)
+Lemma subpath_strict cv f t r : is_subpath cv f t true = Rel r -> is_subpath cv f t false = Rel r.
+Proof.
+  intros H. assert (Hne : is_subpath cv f t true <> NotSub) by (rewrite H; discriminate).
+  apply is_subpath_args in Hne as [Hf Ht]. rewrite is_subpath_eq in * by assumption. cbv zeta in *.
+  destruct (str_eqb _ _); [discriminate|exact H].
+Qed.
+
+Lemma subpath_nonstrict cv f t r : is_subpath cv f t false = Rel r ->
+  is_subpath cv f t true = Rel r \/ (is_subpath cv f t true = NotSub /\ r = [cv_sep cv]).
+Proof.
+  intros H. assert (Hne : is_subpath cv f t false <> NotSub) by (rewrite H; discriminate).
+  apply is_subpath_args in Hne as [Hf Ht]. rewrite is_subpath_eq in * by assumption. cbv zeta in *.
+  destruct (str_eqb _ _); [right; split; [reflexivity|congruence]|left; exact H].
+Qed.
+
+Lemma match_cs cv a b d : cv_cs cv = true -> (paths_match cv a b d = true <-> pc cv a = pc cv b).
+Proof.
+  intros Hc. rewrite match_iff_key by (intros H; congruence). unfold key. rewrite Hc. reflexivity.
+Qed.
+
+(* witnesses for refutations that need no arithmetic: a case-sensitive convention needs no fold
+   hypothesis at all, and a fold that only lowers 'A' satisfies fold_ok by case analysis *)
+Lemma conv_ok_cs cv : cv_cs cv = true -> conv_ok cv.
+Proof. intros Hc H. congruence. Qed.
+
+Definition fold_A (c : N) : N := if N.eqb c 65 then 97%N else c.
+Definition cv_A : conv :=
+  {| cv_sep := 47; cv_alt := None; cv_cs := false; cv_win := false; cv_fold := fold_A |}.
+
+Lemma fold_A_ok : fold_ok cv_A.
+Proof.
+  constructor; cbn [cv_fold cv_sep cv_alt cv_win cv_A].
+  - intros c. unfold fold_A. destruct (N.eqb_spec c 65) as [->|H]; [reflexivity|].
+    destruct (N.eqb_spec c 65); [contradiction|reflexivity].
+  - intros c. unfold fold_A. destruct (N.eqb_spec c 65) as [->|H]; split; intros E; try discriminate; exact E.
+  - intros a Ha. discriminate.
+  - intros Hw. discriminate.
 Qed.
